@@ -77,12 +77,18 @@ find={
       what='the real Move is not the abstract move on dotted-key sources: see C39-move-on-dotted-keys-corrupts'),
  dict(id='C40-refinement-underscore', sig='(delete|move|rename)-refinement', input=ANY('sub-underscore','x-underscore','sube-edge-in-map','t-underscore'),
       what='see C38-hoist-does-not-rewrite-underscore-references'),
+ dict(id='C40-board-scoped-move-leaves-the-board', sig='move-prediction-for-removed-(object|edge)|move-(object|edge)-id-not-predicted|move-refinement', input=F('board-nested'),
+      what='see C39-board-scoped-move-leaves-the-board: a Move addressed to a nested board that targets the board root writes into the file root, the object vanishes from the board while MoveIDDeltas predicts its new ID'),
+ dict(id='C40-move-deltas-collision-name-ignores-hoisted-siblings', sig='move-(object|edge)-id-not-predicted', input=F('child-name-taken-in-parent','x-children'),
+      what='MoveIDDeltas(includeDescendants=false) picks the collision name of a hoisted child without looking at its siblings that are hoisted too (DeleteIDDeltas does): `c: {z: {e; e 2}; e}`, Move("c.z","d") yields c.e 3 but c.e 2 is predicted'),
  dict(id='C40-delete-flat-attr', sig='delete-.*', input=F('x-flat-attr'),
       what='see C38-delete-object-leaks-dotted-attributes-to-parent: elements are mismatched after the leak'),
 ],
 'C41':[
  dict(id='C41-board-edit-of-inherited-element-writes-base', sig='(refused-)?scoped-other-board-changed', input=ANY('x-inherited','sub-inherited','dest-inherited'),
       what='an edit addressed to a nested board whose target (or a child / the destination container) is inherited from the base board edits the base board\'s declaration in place (witness: `y: {style.fill: red}; scenarios: {s1: {b}}`, Delete(["s1"], "y.style.fill") removes the fill from the root board)'),
+ dict(id='C41-board-scoped-connection-rename-edits-the-root-board', sig='(refused-)?scoped-other-board-changed', input=F('board-nested')+r'.*"key": "[^"]*\(.*"kind": "rename"',
+      what='d2oracle.Rename / Move of a CONNECTION addressed to a nested board looks the connection up in the root graph (`obj := g.Root` in move) and rewrites the arrows of the root board\'s connection with the same key (witness: root `c -- c` x2, layer l1 `c -- c` x3, Rename(["l1"], "(c -- c)[1]", "(c <-> c)[1]") changes the root board)'),
 ],
 }
 for p,fs in find.items():
